@@ -14,6 +14,7 @@ import (
 	"verif/harness/evid"
 	"verif/harness/hx"
 	"verif/harness/ref"
+	"verif/harness/simbmc"
 )
 
 var ev *evid.E
@@ -150,6 +151,39 @@ func TestCipherSuites(t *testing.T) {
 	})
 }
 
+// TestCipherSuiteWalkBounded: a BMC with more record data than 64 list indexes can
+// address (or one that answers every index with a full chunk) must not keep the
+// walk going: the 6-bit list index bounds it to 65 requests.
+func TestCipherSuiteWalkBounded(t *testing.T) {
+	for _, size := range []int{1024, 1025, 1040, 1100, 2000} {
+		for _, repeat := range []bool{false, true} {
+			w := hx.NewWorld(uint64(ev.Seed)+uint64(size), true)
+			data := make([]byte, 0, size)
+			for len(data) < size {
+				data = append(data, (&ref.SuiteRecord{ID: byte(len(data)), Auth: 1, Integs: []byte{1}, Confs: []byte{1}}).Bytes()...)
+			}
+			w.BMC.SuiteRecords = data[:size]
+			if repeat {
+				// ignores the list index: always the first 16 bytes
+				w.BMC.Handlers[uint16(ref.NetFnApp)<<8|ref.CmdGetCipherSuites] = func(b *simbmc.BMC, rx *simbmc.Rx) (byte, []byte) {
+					b.Data.CipherReqs++
+					return 0, append([]byte{1}, data[:16]...)
+				}
+			}
+			ctx, cancel := w.Ctx(400)
+			_, _ = bmc.RetrieveSupportedCipherSuites(ctx, w.T)
+			cancel()
+			ev.Eval()
+			if n := w.BMC.Data.CipherReqs; n > 65 {
+				ev.Violation("TestCipherSuiteWalkBounded", map[string]any{"recordBytes": size, "ignoresIndex": repeat}, fmt.Sprintf("%d Get Channel Cipher Suites requests: the walk is not bounded by the 6-bit list index", n))
+				t.Fatalf("record data %d bytes, repeat=%v: %d requests", size, repeat, n)
+			}
+			ev.NonTrivial(fmt.Sprintf("bounded|%d|%v", size, repeat))
+		}
+	}
+	ev.Label("cs:walk-bounded")
+}
+
 // --- DCMI sensor enumeration ------------------------------------------------
 
 var stdEntities = []byte{0x37, 0x03, 0x07}  // air inlet, processor, system board
@@ -282,7 +316,7 @@ func TestDCMIGrid(t *testing.T) {
 }
 
 func TestCoverage(t *testing.T) {
-	need := []string{"dcmi-grid-complete", "dcmi:multi-page:mode0", "dcmi:multi-page:mode1", "dcmi:multi-page:mode2", "cs:exact-multiple-of-16", "cs:chunks=1", "cs:chunks=2", "cs:chunks=3", "cs:chunks=5",
+	need := []string{"cs:walk-bounded", "dcmi-grid-complete", "dcmi:multi-page:mode0", "dcmi:multi-page:mode1", "dcmi:multi-page:mode2", "cs:exact-multiple-of-16", "cs:chunks=1", "cs:chunks=2", "cs:chunks=3", "cs:chunks=5",
 		"cs:malformed:last record cut short", "cs:malformed:first byte is not a record start"}
 	ev.RequireLabels(t, 1, need...)
 }
